@@ -831,8 +831,10 @@ def run_case(ctx, case, check="machine", extra_labels=()):
         labels.append(f"tree-backend:{case['backend']}")
     if live.setter_after_observer:
         labels.append("setter-after-observer")
-    ctx.case(("case", repr(case)), nontrivial=nt, labels=labels,
-             sample=case if (live.setter_after_observer and feats and len(repr(case)) < 1500) else None)
+    # one sample per shard, the type rotating with the shard, so that the ten evidence samples are a spread
+    want = ("blob", "tree", "commit", "tag")[ctx.shard % 4]
+    sample = case if (nt and not ctx.samples and case["type"] == want and live.setter_after_observer and len(repr(case)) < 1500) else None
+    ctx.case(("case", repr(case)), nontrivial=nt, labels=labels, sample=sample)
     return ok
 
 
